@@ -115,7 +115,24 @@ func zzC16_limits() {
 		if len(cands) == 0 {
 			break
 		}
+		// the controller may also stop producing events: whoever still waits must then be woken by the
+		// completions alone (a waiter that is only ever rescued by its own cancellation is a lost wake-up)
+		waiting := false
+		mu.Lock()
+		for i := 0; i < arrived; i++ {
+			if reqs[i].admitted == 0 && !reqs[i].done && !reqs[i].canceled {
+				waiting = true
+			}
+		}
+		mu.Unlock()
+		if waiting {
+			cands = append(cands, 3*R)
+		}
 		ev := cands[symChoose("event", len(cands))]
+		if ev == 3*R {
+			symCover("stopped-early")
+			break
+		}
 		switch {
 		case ev == 2*R:
 			arrive()
